@@ -33,7 +33,7 @@ PERMS = {
 }
 
 
-def series(env, topo, perms, nframes=3, lost=None):
+def series(env, topo, perms, nframes=3, lost=None, lost_k=0):
     import forsys as fs
     spec0 = catalogue(topo, n_spoke=2, n_border=2)
     ends = set()
@@ -63,13 +63,13 @@ def series(env, topo, perms, nframes=3, lost=None):
         frames[k] = fs.frames.Frame(k, b.vertices, b.edges, b.cells, time=times[k])
     guess = {}
     for k in range(nframes - 1):
-        guess[k] = {builts[k].vid_of[pn]: (None if (lost == pn and k == 0) else builts[k + 1].vid_of[pn]) for pn in ends}
+        guess[k] = {builts[k].vid_of[pn]: (None if (lost == pn and k == lost_k) else builts[k + 1].vid_of[pn]) for pn in ends}
     guess[nframes - 1] = {}
     return fs, spec0, ends, times, builts, frames, pos, guess
 
 
-def velocity(env, topo, perms, lost):
-    fs, spec, ends, times, builts, frames, pos, guess = series(env, topo, perms, lost=lost)
+def velocity(env, topo, perms, lost, lost_k=0):
+    fs, spec, ends, times, builts, frames, pos, guess = series(env, topo, perms, lost=lost, lost_k=lost_k)
     F = fs.ForSys(frames, cm=False, initial_guess=guess)
     ts = F.mesh
     if any(m is None for m in ts.mapping.values()):
@@ -81,11 +81,8 @@ def velocity(env, topo, perms, lost):
         for pn in sorted(ends):
             v = ts.calculate_velocity(builts[t].vid_of[pn], t)
             other = t + 1 if t < nf - 1 else t - 1
-            partner = not (lost == pn and ((t == 0) or (t == 1 and other == 0)))
-            if lost == pn and t >= 1 and other == t + 1:
-                partner = True
-            if lost == pn and t == nf - 1 and nf - 2 == 0:
-                partner = False
+            link = t if t < nf - 1 else nf - 2       # the correspondence between frames link and link + 1 is the one used
+            partner = not (lost == pn and link == lost_k)
             if partner:
                 dt = times[other] - times[t]
                 ok = ok & env.eq(v[0] * dt, pos[other][pn][0] - pos[t][pn][0]) & env.eq(v[1] * dt, pos[other][pn][1] - pos[t][pn][1])
@@ -95,8 +92,8 @@ def velocity(env, topo, perms, lost):
     return obs
 
 
-def rhs(env, topo, perms, t, adim, mode, lost=None):
-    fs, spec, ends, times, builts, frames, pos, guess = series(env, topo, perms, lost=lost)
+def rhs(env, topo, perms, t, adim, mode, lost=None, lost_k=0):
+    fs, spec, ends, times, builts, frames, pos, guess = series(env, topo, perms, lost=lost, lost_k=lost_k)
     F = fs.ForSys(frames, cm=False, initial_guess=guess)
     if any(m is None for m in F.mesh.mapping.values()):
         return []
@@ -112,7 +109,7 @@ def rhs(env, topo, perms, t, adim, mode, lost=None):
                 env.assume(u[0] != 0, soft=True)
                 env.assume(u[1] != 0, soft=True)
         for k in range(nf0 - 1):
-            if lost == pn and k == 0:
+            if lost == pn and k == lost_k:
                 continue
             env.assume((pos[k + 1][pn][0] != pos[k][pn][0]) | (pos[k + 1][pn][1] != pos[k][pn][1]))
     try:
@@ -129,10 +126,12 @@ def rhs(env, topo, perms, t, adim, mode, lost=None):
     dt = times[other] - times[t]
     rows = {builts[t].point_of[v]: r for v, r in fm.map_vid_to_row.items()}
     used = spec.used_junctions()
+    link = t if t < nf - 1 else nf - 2
+    nopartner = lambda pn: lost == pn and link == lost_k
     obs = [Ob("one-row-pair-per-used-junction", sorted(rows) == sorted(used) and b.shape == (2 * len(used), 1))]
     speeds = []
     for pn in used:
-        if lost == pn and t == 0:
+        if nopartner(pn):
             speeds.append(0)          # no tracked partner: velocity zero, and it still counts in the mean
             continue
         dx, dy = pos[other][pn][0] - pos[t][pn][0], pos[other][pn][1] - pos[t][pn][1]
@@ -141,7 +140,7 @@ def rhs(env, topo, perms, t, adim, mode, lost=None):
     ok = env.true()
     for pn, r0 in rows.items():
         dx, dy = pos[other][pn][0] - pos[t][pn][0], pos[other][pn][1] - pos[t][pn][1]
-        if lost == pn and t == 0:
+        if nopartner(pn):
             dx, dy = 0, 0
         if mode != "velocity":
             ok = ok & env.eq(b[r0, 0], 0) & env.eq(b[r0 + 1, 0], 0)
@@ -155,6 +154,13 @@ def rhs(env, topo, perms, t, adim, mode, lost=None):
         obs.append(Ob("system-velocity-of-the-frame-is-that-mean-speed", env.eq(sysv[t], mean) & (len(sysv) == nf)))
     else:
         obs.append(Ob("no-normalisation-speed-without-adimensional-velocities", env.eq(ave, 1)))
+    if mode == "velocity":
+        # the same built matrix asked again, in static mode: all zero (nothing of the dynamic call may linger)
+        b2, ave2 = fm.set_velocity_matrix(F.mesh, b_matrix=None)
+        z = env.true()
+        for r in range(b2.shape[0]):
+            z = z & env.eq(b2[r, 0], 0)
+        obs.append(Ob("static-rhs-is-all-zero-also-after-a-dynamic-call-on-the-same-matrix", z & (b2.shape == b.shape) & env.eq(ave2, 1)))
     return obs
 
 
@@ -174,6 +180,16 @@ def jobs(tier):
                     js.append(Job(f"rhs-{topo}-{'-'.join(perms)}-t{t}-adim={adim}-{mode}", "c13:rhs",
                                   dict(topo=topo, perms=list(perms), t=t, adim=adim, mode=mode), budget_s=900, max_paths=2000,
                                   opts=dict(cheap_forks=True), weight=3))
+    # a junction that loses its partner between the last two frames: zero velocity at the middle frame (forward) and at the
+    # last frame (backward, inverted map), whatever id it carries
+    for perms in combos[:2]:
+        js.append(Job(f"velocity-T3-{'-'.join(perms)}-lost=P1-between-last-frames", "c13:velocity", dict(topo="T3", perms=list(perms), lost="P1", lost_k=1),
+                      budget_s=900, max_paths=2000, opts=dict(cheap_forks=True), weight=2))
+        js.append(Job(f"velocity-T3-{'-'.join(perms)}-lost=O-between-last-frames", "c13:velocity", dict(topo="T3", perms=list(perms), lost="O", lost_k=1),
+                      budget_s=900, max_paths=2000, opts=dict(cheap_forks=True), weight=2))
+    js.append(Job("rhs-T3-id-rev-gap-t2-adim=False-velocity-lost=O-between-last-frames", "c13:rhs",
+                  dict(topo="T3", perms=["id", "rev", "gap"], t=2, adim=False, mode="velocity", lost="O", lost_k=1), budget_s=900, max_paths=2000,
+                  opts=dict(cheap_forks=True), weight=3))
     # several used junctions, one of them without a tracked partner: its zero velocity still enters the mean speed
     js.append(Job("rhs-K4-n0-id-rev-gap-t0-adim=True-velocity-lost=J2", "c13:rhs",
                   dict(topo="K4-n0", perms=["id", "rev", "gap"], t=0, adim=True, mode="velocity", lost="J2"), budget_s=1200, max_paths=3000,
